@@ -3,3 +3,4 @@ pub mod reverse;
 pub mod limits;
 pub mod reject;
 pub mod bitshare;
+pub mod clones;
